@@ -125,9 +125,11 @@ def _decoder(kind, cfg):
 def _syn_var_cfgs(tier):
     out = []
     for c in _syn_cfgs(tier):
-        n = codes.build(c).generator_matrix.shape[1]
-        # two blocks per row square the number of paths: multi-block layouts for n <= 8 (thorough: n <= 10; 80 s per configuration at n = 15)
-        out += codes.with_variants([c], ["1d", "B1", "1d:int64", "plain"] + (["Bb", "1db"] if n <= (8 if tier == "quick" else 10) else []) + (["ml"] if n <= 12 else []))
+        k, n = codes.build(c).generator_matrix.shape
+        # two blocks per row square the number of paths (2^(n-k) syndromes per block): multi-block layouts for n <= 8 (thorough: n <= 10
+        # and redundancy <= 4; 80 s per configuration at n = 15, minutes at redundancy 6)
+        multi = n <= 8 if tier == "quick" else (n <= 10 and n - k <= 4)
+        out += codes.with_variants([c], ["1d", "B1", "1d:int64", "plain"] + (["Bb", "1db"] if multi else []) + (["ml"] if n <= 12 else []))
     return out
 
 
